@@ -240,7 +240,10 @@ impl Check for C04 {
         let mut r = Rng::new(seed);
         let mut sc = gen_sync(&mut r, true);
         if r.below(6) == 0 {
-            sc.inject = Some((r.below(5) as u8, r.range(1, 12) as u32));
+            let kind = r.below(FAULT_KINDS.len() as u64) as u8;
+            // (a tree walk lists few directories: keep the call number low for that kind)
+            let nth = if FAULT_KINDS[kind as usize] == OpKind::Readdir { r.range(1, 4) } else { r.range(1, 12) } as u32;
+            sc.inject = Some((kind, nth));
         }
         sc
     }
